@@ -21,6 +21,6 @@ def check(ctx):
               emit_cfgs=([("1ecu4", "Lc_emit_1ecu4.cfg")] if q else [("1ecu5", "Lc_emit_1ecu5.cfg"), ("2ecu3", "Lc_emit_2ecu3_full.cfg")]) + lc.EPOCH_CFGS,
               mc_cfgs=[] if q else [("2ecu4", "LcDetector.tla", "Lc_2ecu4.cfg")],
               driver_args=["--regressions", "--random", "400" if q else "8000", "--max-len", "40" if q else "120",
-                           "--big-tables", "3" if q else "40", "--file-max", "600" if q else "6000"],
+                           "--big-tables", "3" if q else "40", "--file-max", "600" if q else "6000", "--huge", "1" if q else "3"],
               scripted=2500 if q else 40000,
               what="order / completeness / assignment at every delivery and at end of input")
